@@ -1,12 +1,15 @@
 #!/bin/sh
-# seedrun.sh <seeded-name> <check-id>... : applies a seeded change to /repo, runs the quick checks, undoes it.
+# seedrun.sh <seeded-name> <check-id>... : applies a seeded change to a scratch worktree of /repo's HEAD
+# and runs the quick checks against that worktree (VERIF_REPO); /repo itself is not touched.
 name=$1; shift
-cd /repo || exit 2
-git diff --quiet || { echo "/repo has uncommitted changes"; exit 2; }
-git apply /verif/seeded/$name/patch.diff || exit 2
+wt=/tmp/sr/$name
+mkdir -p /tmp/sr
+git -C /repo worktree remove --force $wt >/dev/null 2>&1
+git -C /repo worktree add -q --detach $wt HEAD || exit 2
+( cd $wt && git apply /verif/seeded/$name/patch.diff ) || { echo "$name: patch does not apply"; git -C /repo worktree remove --force $wt; exit 2; }
 cd /verif
 for c in "$@"; do
-  ./check $c --tier ${TIER:-quick} > /tmp/seedrun.$name.$c.out 2> /tmp/seedrun.$name.$c.err
+  VERIF_REPO=$wt ./check $c --tier ${TIER:-quick} > /tmp/seedrun.$name.$c.out 2> /tmp/seedrun.$name.$c.err
   echo "$name $c exit=$? $(grep -c '^VIOLATION' /tmp/seedrun.$name.$c.out) violations; $(tail -1 /tmp/seedrun.$name.$c.err)"
 done
-git -C /repo checkout -- .
+git -C /repo worktree remove --force $wt
